@@ -142,6 +142,16 @@ CHECKS = {
              "The history runs with the GC disabled (pooled objects survive); every previously returned value and caller-owned input is re-hashed after every later call. Oracle: each call's result equals the result of the same call from a flushed-pool (fresh) state. "
              "Non-trivial: the verif-tagged Pool hook saw at least one pool hit during the history; distinct = sequence of (previous op -> op) pairs.",
         assumptions=["runtime.GC() twice empties every sync.Pool, standing for a fresh process", "results are compared through digests (bytes; image type+bounds+samples; error text)"],
-        tests=[dict(name="TestC11", quick=1600, thorough=25000)],
+        tests=[dict(name="TestC11", quick=1200, thorough=25000)],
+    ),
+    "C10": dict(
+        level="exploration",
+        rule="(schedules) for the row-pipelined lossy encoder rapid draws a perturbation plan for the verif-tagged Yield hook (sites: row claim, wait entry, wait after registering as waiter, signal entry, signal after storing progress, before export; per row class; runtime.Gosched x1-20 or sleep 1-200 us) and a worker count 2-6 (Workers hook) on pictures with >=4 macroblock rows, Method 3-6; oracle: bytes equal the same pipelined encode with ONE worker and no perturbation; a 90 s watchdog turns a deadlock/lost wake-up into a reported hang with a goroutine dump. "
+             "(concurrent API) 2-10 goroutines run generated call lists (Encode lossy/lossless, Decode/DecodeConfig/GetFeatures of intact and damaged files, animation encode and playback) at GOMAXPROCS 2-16 sharing the internal pools; oracle: every result equals the result of the same call run alone from a fresh state; returned values stay intact. "
+             "Both parts also run under the Go race detector (any DATA RACE report is a violation). "
+             "Non-trivial: >=4 rows claimed by the pipeline, or >=2 goroutines with at least one pool hit; distinct = (plan kinds, worker count, Method) / (goroutines, procs, op mix, calls).",
+        assumptions=["the Go scheduler is perturbed at the hooked points and by GOMAXPROCS/load, not enumerated: an interleaving inside an unhooked critical region can be missed", "race detector findings depend on the schedules that actually occur"],
+        tests=[dict(name="TestC10Sched", quick=480, thorough=16000), dict(name="TestC10Conc", quick=96, thorough=4000),
+               dict(name="TestC10Sched", quick=32, thorough=1200, variant="race"), dict(name="TestC10Conc", quick=16, thorough=640, variant="race")],
     ),
 }
